@@ -8,18 +8,56 @@ Import ListNotations.
 (* chronological log of a model state *)
 Definition chron (st : state) : list obs := rev (log st).
 
-(* ---- no writer call after the completed channel was closed ---- *)
-Definition no_write_after_completed (l : list obs) : Prop :=
-  forall l1 l2 s c, l = l1 ++ OClosed s :: l2 -> ~ In (OW s c) l2.
+(* ---- writer calls as intervals: [OW s c] = call entered, [OWE s c] = call returned ---- *)
+Definition is_ow (s : sid) (o : obs) : bool := match o with OW s' _ => s' =? s | _ => false end.
+Definition is_owe (s : sid) (o : obs) : bool := match o with OWE s' _ => s' =? s | _ => false end.
+Definition is_oclosed (s : sid) (o : obs) : bool := match o with OClosed s' => s' =? s | _ => false end.
+Definition nw (s : sid) (l : list obs) : nat := length (filter (is_ow s) l).     (* calls entered *)
+Definition nwe (s : sid) (l : list obs) : nat := length (filter (is_owe s) l).   (* calls returned *)
 
-Fixpoint nwac_b (closed : list sid) (l : list obs) : bool :=
+(* ---- no writer call after the completed channel was closed ----
+   At the granularity of call intervals: after close(completed_s) no writer call of s is entered, none
+   returns, and at the close no call of s is in progress (every call entered before it has returned).
+   The last clause is what done() taking writeMu provides. *)
+Definition no_write_after_completed (l : list obs) : Prop :=
+  (forall l1 l2 s c, l = l1 ++ OClosed s :: l2 -> ~ In (OW s c) l2) /\
+  (forall l1 l2 s c, l = l1 ++ OClosed s :: l2 -> ~ In (OWE s c) l2) /\
+  (forall l1 l2 s, l = l1 ++ OClosed s :: l2 -> nw s l1 = nwe s l1).
+
+(* checkers: a fold over the chronological log; [past] = the entries already seen, newest first *)
+Fixpoint hist_b (cb : obs -> list obs -> bool) (past : list obs) (l : list obs) : bool :=
   match l with
   | [] => true
-  | OClosed s :: r => nwac_b (s :: closed) r
-  | OW s _ :: r => negb (mem s closed) && nwac_b closed r
-  | _ :: r => nwac_b closed r
+  | o :: r => cb o past && hist_b cb (o :: past) r
   end.
+Definition nclosed (s : sid) (l : list obs) : nat := length (filter (is_oclosed s) l).
+Definition nwac_cb (o : obs) (past : list obs) : bool :=
+  match o with
+  | OW s _ | OWE s _ => nclosed s past =? 0
+  | OClosed s => nw s past =? nwe s past
+  | _ => true
+  end.
+Definition nwac_b (past : list obs) (l : list obs) : bool := hist_b nwac_cb past l.
 Definition no_write_after_completed_b (l : list obs) : bool := nwac_b [] l.
+
+(* ---- writer calls of one subscriber never overlap ----
+   A call of s is entered only while no call of s is in progress, and a return of s always closes
+   the one call in progress: per subscriber the log reads enter, return, enter, return, ... *)
+Definition writes_exclusive (l : list obs) : Prop :=
+  forall l1 o l2, l = l1 ++ o :: l2 ->
+    match o with
+    | OW s _ => nw s l1 = nwe s l1
+    | OWE s _ => nw s l1 = S (nwe s l1)
+    | _ => True
+    end.
+Definition wx_cb (o : obs) (past : list obs) : bool :=
+  match o with
+  | OW s _ => nw s past =? nwe s past
+  | OWE s _ => nw s past =? S (nwe s past)
+  | _ => true
+  end.
+Definition wx_b (past : list obs) (l : list obs) : bool := hist_b wx_cb past l.
+Definition writes_exclusive_b (l : list obs) : bool := wx_b [] l.
 
 (* ---- completion is signalled exactly once ---- *)
 Definition closes (l : list obs) : list sid :=
@@ -43,3 +81,52 @@ Definition delivery_lite_b (flt : sid -> ev -> fres) (ev_bad : ev -> bool) (ss :
   forallb (fun s =>
     let w := writes_of s l in
     nodup_b w && forallb (fun e => negb (ev_bad e) && match flt s e with FPass => true | _ => false end) w) ss.
+
+(* ---- fan-out is serial: event A is completely delivered before event B is started ----
+   [GAccept t e l] is logged inside the updater-mutex section of trigger instance t, at the trigger.mu
+   filter snapshot: the order of these entries is the order in which the source's Update /
+   UpdateSubscription calls acquired the updater mutex, i.e. the order of emission -- also when the
+   source calls the updater from several goroutines. *)
+Definition emitf (t : tid) (o : obs) : list ev :=
+  match o with GAccept t' e _ => if t' =? t then [e] else [] | _ => [] end.
+Definition emitted (t : tid) (l : list obs) : list ev := flat_map (emitf t) l.       (* chronological *)
+Fixpoint last_emitted (t : tid) (past : list obs) : option ev :=                      (* past newest first *)
+  match past with
+  | [] => None
+  | GAccept t' e _ :: r => if t' =? t then Some e else last_emitted t r
+  | _ :: r => last_emitted t r
+  end.
+(* the entry is the start of the Write of event e to subscriber s *)
+Definition wev (o : obs) : option (sid * ev) :=
+  match o with OW s (CWrite e) | OW s (CWriteFail e) => Some (s, e) | _ => None end.
+(* every Write of an event to a subscriber of trigger [g s] is entered while that event is the most
+   recently emitted event of the trigger *)
+Definition fanout_serial (g : sid -> tid) (l : list obs) : Prop :=
+  forall l1 o l2 s e, l = l1 ++ o :: l2 -> wev o = Some (s, e) -> last_emitted (g s) (rev l1) = Some e.
+
+(* subsequence *)
+Fixpoint subseq (a b : list ev) : Prop :=
+  match b with
+  | [] => a = []
+  | y :: b' => match a with [] => True | x :: a' => (x = y /\ subseq a' b') \/ subseq a b' end
+  end.
+
+(* the same without ghost entries (for the implementation's log; events pairwise distinct): the Writes
+   made to the subscribers of one group never return to an earlier event: no a .. b .. a *)
+Definition gwrites (g : sid -> nat) (k : nat) (l : list obs) : list ev :=
+  flat_map (fun o => match wev o with Some (s, e) => if g s =? k then [e] else [] | None => [] end) l.
+Definition serial (w : list ev) : Prop :=
+  forall l1 a l2 b l3, w = l1 ++ a :: l2 ++ b :: l3 -> a <> b -> ~ In a l3.
+Fixpoint serial_go (cur : option ev) (done : list ev) (w : list ev) : bool :=
+  match w with
+  | [] => true
+  | e :: r =>
+    match cur with
+    | None => serial_go (Some e) done r
+    | Some c => if c =? e then serial_go cur done r
+                else negb (mem e done) && serial_go (Some e) (c :: done) r
+    end
+  end.
+Definition serial_b (w : list ev) : bool := serial_go None [] w.
+Definition events_serial_b (g : sid -> nat) (ks : list nat) (l : list obs) : bool :=
+  forallb (fun k => serial_b (gwrites g k l)) ks.
